@@ -122,6 +122,10 @@ func init() {
 }
 
 func runC19(c *Ctx, r *Report) {
+	r.Rule("C19/ignored-first", "before it has examined the type of the object it is applied to an option returns no error other than the rejection of its own value (bad-option)", 40)
+	checkOptionIgnoredFirst(c, r, "C19/ignored-first")
+	r.Rule("C19/constructors-relay", "constructors hand on the errors of options and nested constructors unwrapped or wrapped with %w", 1)
+	checkConstructorsRelayErrors(c, r, "C19/constructors-relay")
 	importFoundation(c, r, "C19", "platform-fresh")
 	r.Rule("C19/O1O2", "ignored sentinel only on the non-matching path and never after a store; no success without the store; stores only into the asserted target", 45)
 	r.Rule("C19/O3", "each option stores exactly the setting the specification names, taking the value from its own parameter or constant", 45)
